@@ -8,7 +8,10 @@ Definition abbrev_of (m : Z) : str := nth (Z.to_nat (m - 1)) month_abbrev [].
 Definition full_of (m : Z) : str := nth (Z.to_nat (m - 1)) month_full [].
 
 (* v is an unenclosed spelling of month m: the integer, a decimal string of it (any number of leading zeros),
-   or any letter-case variant of the abbreviation or of the full name *)
+   or any letter-case variant of the abbreviation or of the full name.
+   The bool True is NOT a spelling (the int middleware returns it as it is), although `isinstance(True, int)` makes the
+   long / abbreviation middlewares read it as 1: the theorems about non-spellings and about composition therefore
+   carry the premise  v <> VBool true  (Properties/C15.v: C15_bool_true states what happens to it). *)
 Definition spells (m : Z) (v : value) : Prop :=
   v = VInt m
   \/ (exists s, v = VStr s /\ str_isdecimal s = true /\ py_int s = Some (Z.to_N m))
